@@ -40,6 +40,7 @@ CONSTANTS
     Sizes,        \* abstract sizes (octets above a fixed base)
     Days,         \* day indices of the dates as written (internal and sent)
     Shifts,       \* (UTC day) - (written day) of a date-time: subset of {-1,0,1}
+    WithNoSent,   \* BOOLEAN: messages without a Date: header occur
     Fields,       \* header fields a message may have
     Tokens,       \* searchable words
     \* ---- key universe
@@ -79,6 +80,7 @@ StdUidSets ==   \* messages have UIDs in 101..105
       <<<<102, 104>>>>, <<<<104, 102>>>>, <<<<103, 0>>>>, <<<<0, 102>>>>, <<<<106, 0>>>>,
       <<<<1, 0>>>>, <<<<2, 3>>>>, <<N(101), N(104)>>, <<<<101, 102>>, <<105, 0>>>>,
       <<N(102), <<104, 0>>>> }
+StdShifts  == {-1, 0, 1}          \* (a cfg file cannot write negative numbers)
 SmallSeqSets == { <<<<2, 0>>>> }
 SmallUidSets == { <<<<102, 101>>>> }
 
@@ -182,6 +184,13 @@ Hidden(v)    == {p \in Pos(v) : v[p].hidden}
 ResU(k, v, c) == {u \in Uids : \E p \in Pos(v) : v[p].uid = u /\ Eval(k, v, p, c)}
 HiddenU(v)    == {v[p].uid : p \in Hidden(v)}
 
+RECURSIVE Mentions(_, _)
+Mentions(k, ops) ==       \* some key of the tree has an operator in ops
+    CASE k.op = "NOT" -> Mentions(k.k, ops)
+      [] k.op = "OR"  -> Mentions(k.a, ops) \/ Mentions(k.b, ops)
+      [] k.op = "AND" -> \E i \in 1..Len(k.ks) : Mentions(k.ks[i], ops)
+      [] OTHER -> k.op \in ops
+
 (* RFC 2180 4.3: a message expunged by another session but not yet announced  *)
 (* may be searched or left out; RFC 3501 "disregarding time and timezone":    *)
 (* every reading in DateModes is accepted.                                    *)
@@ -189,21 +198,30 @@ Alts(k, v, c)  == {Res(k, v, [c EXCEPT !.date = dm]) \ H :
                         dm \in DateModes, H \in SUBSET Hidden(v)}
 AltsU(k, v, c) == {ResU(k, v, [c EXCEPT !.date = dm]) \ H :
                         dm \in DateModes, H \in SUBSET HiddenU(v)}
+ToUids(A, v)   == {v[p].uid : p \in A}
 
 (* Named deviations (known findings live in known/C13.json):                 *)
 (*   BodyKeyMatchesHeaders - BODY s is evaluated like TEXT s                  *)
 (*   UidSearchSeqSetAsUid  - in UID SEARCH a sequence-set key is read as UIDs *)
+(* A deviation is evaluated only for programs that mention the keys it is     *)
+(* about, and listed only where it changes the answer.                        *)
 Ctx(D, uidcmd) == [date |-> "written",
                    body |-> IF "BodyKeyMatchesHeaders" \in D THEN "text" ELSE "body",
                    seq  |-> IF uidcmd /\ "UidSearchSeqSetAsUid" \in D THEN "uid" ELSE "seq"]
 
+DevsFor(k, uidcmd) ==
+       (IF Mentions(k, {"BODY"}) THEN Devs \cap {"BodyKeyMatchesHeaders"} ELSE {})
+  \cup (IF uidcmd /\ Mentions(k, {"SEQ"}) THEN Devs \cap {"UidSearchSeqSetAsUid"} ELSE {})
+
 Expect(k, v) ==
     LET sa == Alts(k, v, Ideal)
-        ua == AltsU(k, v, Ideal)
-        sd == {D \in SUBSET (Devs \ {"UidSearchSeqSetAsUid"}) : Alts(k, v, Ctx(D, FALSE)) # sa}
-        ud == {D \in SUBSET Devs : AltsU(k, v, Ctx(D, TRUE)) # ua}
+        ua == {ToUids(A, v) : A \in sa}
+        sd == {D \in SUBSET DevsFor(k, FALSE) \ {{}} : Alts(k, v, Ctx(D, FALSE)) # sa}
+        ud == {D \in SUBSET DevsFor(k, TRUE) \ {{}} :
+                    {ToUids(A, v) : A \in Alts(k, v, Ctx(D, TRUE))} # ua}
     IN [seq |-> [alts |-> sa, dev |-> [D \in sd |-> Alts(k, v, Ctx(D, FALSE))]],
-        uid |-> [alts |-> ua, dev |-> [D \in ud |-> AltsU(k, v, Ctx(D, TRUE))]]]
+        uid |-> [alts |-> ua,
+                 dev |-> [D \in ud |-> {ToUids(A, v) : A \in Alts(k, v, Ctx(D, TRUE))}]]]
 
 (* RFC 3501 7.? / 9: "The server should respond with a tagged BAD response to  *)
 (* a command that uses a message sequence number greater than the number of   *)
@@ -281,7 +299,7 @@ DateTimes == [d : Days, s : Shifts]
 
 \* everything but uid, \Recent, hidden
 MsgCore == [flags : SUBSET (SysFlags \cup Kws), size : Sizes, int : DateTimes,
-            sent : DateTimes \cup {NoSent}, hdr : [Fields -> SUBSET Words],
+            sent : DateTimes \cup (IF WithNoSent THEN {NoSent} ELSE {}), hdr : [Fields -> SUBSET Words],
             body : SUBSET Tokens]
 
 (* \Recent: the messages that arrived after the last session that had the   *)
@@ -306,7 +324,7 @@ RandCore(j) ==
     [flags |-> RandomElement(SUBSET (SysFlags \cup Kws)),
      size  |-> RandomElement(Sizes),
      int   |-> RandomElement(DateTimes),
-     sent  |-> IF RandomElement(1..8) = 1 THEN NoSent ELSE RandomElement(DateTimes),
+     sent  |-> IF WithNoSent /\ RandomElement(1..8) = 1 THEN NoSent ELSE RandomElement(DateTimes),
      hdr   |-> [f \in Fields |-> IF RandomElement(1..3) = 1 THEN {} ELSE RandomElement(SUBSET Words)],
      body  |-> RandomElement(SUBSET Tokens)]
 
@@ -378,14 +396,15 @@ InvAnd == (Asked /\ key.op = "AND") =>
 
 \* the UID answer is the sequence-number answer mapped through the view
 InvUidSeq == Asked =>
-    /\ exp.uid.alts = {{mbox[p].uid : p \in A} : A \in exp.seq.alts}
+    /\ exp.uid.alts = AltsU(key, mbox, Ideal)      \* evaluated by UID, on its own
     /\ \A A \in exp.seq.alts : A \subseteq Pos(mbox)
     /\ R(key) \in exp.seq.alts
+    /\ ResU(key, mbox, Ideal) = ToUids(R(key), mbox)
 
-\* every rewriting in Equivs has the same set of allowed answers
+\* every rewriting in Equivs(key) selects the same messages (under every reading of the dates)
 InvEquiv == (Asked /\ ~rw) =>
-    \A e \in Equivs(key) : /\ Alts(e, mbox, Ideal) = exp.seq.alts
-                           /\ AltsU(e, mbox, Ideal) = exp.uid.alts
+    \A e \in Equivs(key) : \A dm \in DateModes :
+        Res(e, mbox, [Ideal EXCEPT !.date = dm]) = Res(key, mbox, [Ideal EXCEPT !.date = dm])
 
 \* a deviation is listed only where it changes the answer
 InvDev == Asked =>
